@@ -30,11 +30,13 @@ def es_part(out, prop, tier, jobs, only, assumptions, functions, bounds):
         # exploration beyond it: an undischarged relation or an unfinished job there is recorded, not claimed and does not
         # make the run inconclusive (a natively reproduced deviation is a violation in either case)
         try:
-            qnames = set(j[0] for j in getattr(es, 'jobs_' + prop)('quick', seed()))
+            qjobs = dict((j[0], json.dumps(j[1], sort_keys=True)) for j in getattr(es, 'jobs_' + prop)('quick', seed()))
         except Exception:
-            qnames = set()
+            qjobs = {}
         for j in jobs:
-            if j[0] not in qnames:
+            # same name AND same job description as in the quick tier (the thorough tier re-uses some names with heavier
+            # settings, e.g. permutation jobs with first-order dual numbers)
+            if qjobs.get(j[0]) != json.dumps(j[1], sort_keys=True):
                 j[2]['soft'] = True
     results = es.run_jobs(jobs)
     # robustness against timeout-dependent proofs: jobs with an undischarged in-scope obligation (and no native
